@@ -18,6 +18,34 @@ static int c10_cmd (char *line)
       current_time += atol (line + 4);
       return 1;
     }
+  if (!strncmp (line, "gop ", 4))
+    {
+      /* gop <giver> <oid> <op>: apply do_op with command_giver = <giver> (this_player() of the apply),
+       * like a command typed by a player; exercises THIS_PLAYER_IN_CALL_OUT in new_call_out()/call_out() */
+      char *tok[4];
+      char buf[4096];
+      snprintf (buf, sizeof buf, "%s", line);
+      if (vh_split (buf, tok, 4) != 4)
+        return 0;
+      object_t *g = vh_obj (tok[1]);
+      object_t *ob = vh_obj (tok[2]);
+      if (!ob)
+        {
+          vh_out ("r %s do_op !noobj", tok[2]);
+          return 1;
+        }
+      if (ob->flags & O_DESTRUCTED)
+        {
+          vh_out ("r %s do_op !destructed", tok[2]);
+          return 1;
+        }
+      save_command_giver ((g && !(g->flags & O_DESTRUCTED)) ? g : 0);
+      int rc = vh_apply_str (ob, "do_op", 1, &tok[3], 0, 0);
+      restore_command_giver ();
+      if (rc == 1)
+        vh_out ("r %s do_op !err", tok[2]);
+      return 1;
+    }
   return 0;
 }
 
